@@ -63,13 +63,16 @@ class TlcResult:
 
 
 def run_tlc(module, cfg=None, wd=None, workers=None, env=None, simulate=None, depth=None,
-            seed=None, timeout=1800, coverage=False, cont=False, dfs=False, extra=()):
+            seed=None, timeout=1800, coverage=False, cont=False, dfs=False, extra=(), clean=True, overlay=None):
     """Run TLC on spec/<module>.tla from a scratch copy of spec/ (so that TLC's files never
     land in the tracked tree).  `env` values are visible to the spec through IOEnv."""
     wd = wd or workdir("tlc_" + module)
     for f in os.listdir(SPEC):
         if f.endswith((".tla", ".cfg")):
             shutil.copy(os.path.join(SPEC, f), wd)
+    for name, content in (overlay or {}).items():   # generated modules (e.g. recorded traces as literals)
+        with open(os.path.join(wd, name), "w") as f:
+            f.write(content)
     cfg = cfg or module + ".cfg"
     workers = workers or NPROC
     cmd = ["java", "-XX:+UseParallelGC", "-Xmx8g"]
